@@ -150,7 +150,7 @@ func c02Case(r *evid.Run, tier string, idx int, g *rng.R) {
 		// a wide element and an element with many attributes: sizes around the usual strategy thresholds
 		ws := adoc.Thresholds[:8]
 		if tier == "thorough" {
-			ws = adoc.Thresholds[:11]
+			ws = adoc.Thresholds[:9]
 		}
 		adoc.Widen(g, d, rng.Pick(g, ws), false)
 		adoc.ManyAttrs(g, d, rng.Pick(g, []int{5, 9, 12, 16, 17, 40}))
